@@ -140,6 +140,8 @@ def check(ck: Check) -> None:
     ck.run("R02.5", "exactly one reward transaction, first, one null input", lambda: r02_5(ck))
     ck.run("R02.6", "height linkage", lambda: r02_6(ck))
     ck.run("R02.7", "integer-only consensus arithmetic", lambda: r02_7(ck))
+    from .c18 import r18_7
+    ck.run("R18.7", "full validation applies above the recorded checkpoint horizon, which has not moved", lambda: r18_7(ck))
     ck.run("R01.8", "reward/rest split agreement", lambda: rule_split_agreement(ck, "R01.8"))
     ck.run("R01.10", "apply removes spent and adds created outputs", lambda: rule_uto_apply(ck, "R01.10"))
     from .c16 import r16_schedule
